@@ -118,6 +118,9 @@ type Obs struct {
 	Fired   bool   `json:"fired"`
 	Closed  []bool `json:"closed"` // plugin side noticed the loss of its connection (at the end)
 	Retries int    `json:"retries"`
+	// handshake stream: the plugin under test was activated; why the plugin connecting after it was not
+	Activated bool   `json:"activated"`
+	LateErr   string `json:"late_err"`
 	Fail    string `json:"fail"`
 	Panic   string `json:"panic"`
 }
@@ -432,6 +435,15 @@ func runCase(dir string, in *In) Obs {
 		if err != nil {
 			return Obs{Fail: err.Error(), Closed: []bool{}}
 		}
+		if in.Kind == "handshake" {
+			o = runHandshake(d, in)
+			os.RemoveAll(d)
+			o.Retries = try
+			if !noisyHandshake(in, &o) {
+				break
+			}
+			continue
+		}
 		if in.Kind == "multi" {
 			o = runMulti(d, in)
 			os.RemoveAll(d)
@@ -531,6 +543,11 @@ func Run(o *hx.Opts, w *lineio.Writer) error {
 			}
 		}
 	}
+	// ... and how many bytes a clean registration handshake moves
+	for pos := 0; pos < 3; pos++ {
+		calib = append(calib, &rt.Job{ID: fmt.Sprintf("calib-hs-%d", pos),
+			In: &In{Kind: "handshake", Ev: rt.EvCreate, Pos: pos, N: 3, Fault: Fault{Kind: "hs-none"}, TimeoutMs: timeoutMs, SlackMs: slackMs}})
+	}
 	if err := rt.Dispatch(o.Scratch, "C07", "", calib, 1, par, 20*time.Second); err != nil {
 		emit(w, calib)
 		return err
@@ -544,6 +561,10 @@ func Run(o *hx.Opts, w *lineio.Writer) error {
 			return fmt.Errorf("calibration %s failed: %s", j.ID, ob.Fail)
 		}
 		in := j.In.(*In)
+		if in.Kind == "handshake" {
+			ln[fmt.Sprintf("hs-%d", in.Pos)] = lens{ob.R2P, ob.P2R}
+			continue
+		}
 		ln[fmt.Sprintf("%d-%d-%v", in.Ev, in.Pos, in.Raw)] = lens{ob.R2P, ob.P2R}
 	}
 	rnd := o.Rand(701)
@@ -622,6 +643,33 @@ func Run(o *hx.Opts, w *lineio.Writer) error {
 			}
 			for off := int64(rnd.Intn(int(stride))); off < total; off += stride {
 				add(mk(ev, 1, Fault{Kind: "cut", Dir: dir, Off: off}, true))
+			}
+		}
+	}
+	// faults during the registration handshake (before any request reaches the plugin)
+	for pos := 0; pos < 3; pos++ {
+		for _, ev := range reqTypes {
+			if !thorough && ev != reqTypes[(pos+int(o.Seed))%len(reqTypes)] && ev != rt.EvCreate {
+				continue
+			}
+			for _, k := range HsKinds {
+				jobs = append(jobs, &rt.Job{ID: fmt.Sprintf("%s-e%d-p%d-%d", k, ev, pos, len(jobs)),
+					In: &In{Kind: "handshake", Ev: ev, Pos: pos, N: 3, Fault: Fault{Kind: k}, TimeoutMs: timeoutMs, SlackMs: slackMs}})
+			}
+		}
+		l := ln[fmt.Sprintf("hs-%d", pos)]
+		for _, dir := range []string{"r2p", "p2r"} {
+			total := l.r2p
+			if dir == "p2r" {
+				total = l.p2r
+			}
+			stride := int64(9)
+			if thorough {
+				stride = 2
+			}
+			for off := int64(rnd.Intn(int(stride))); off < total+stride; off += stride {
+				jobs = append(jobs, &rt.Job{ID: fmt.Sprintf("hs-cut-%s%d-p%d-%d", dir, off, pos, len(jobs)),
+					In: &In{Kind: "handshake", Ev: rt.EvCreate, Pos: pos, N: 3, Fault: Fault{Kind: "hs-cut", Dir: dir, Off: off}, TimeoutMs: timeoutMs, SlackMs: slackMs}})
 			}
 		}
 	}
